@@ -124,6 +124,10 @@ def register(reg):
         "{R}[self.unbalance_col] == {CMP}".format(R=R, CMP=CMP),
         "{R}[self.carbon_balance_col] == {LABEL}".format(R=R, LABEL=LABEL),
         "{R}['input_reaction'] == old({R}['input_reaction'])".format(R=R),
+        "self.unbalance_col in {R} and self.solved_col in {R} and self.reaction_col in {R} and 'input_reaction' in {R} and 'reactants' in {R} and 'products' in {R} "
+        "and implies(self.check_carbon_balance or old(self.carbon_balance_col in {R}), self.carbon_balance_col in {R}) "
+        "and implies(truthy({R}[self.solved_col]) and not truthy(old({R}[self.solved_col])), self.solved_method_col in {R}) "
+        "and (self.issue_col in {R}) == old(self.issue_col in {R})".format(R=R),
         # after a pass that reverts unsolved rows the side fields describe the returned reaction [C10]
         "implies(override_unsolved, {R}['reactants'] == split_at(as_str({R}[self.reaction_col]), '>>', 0) and {R}['products'] == split_at(as_str({R}[self.reaction_col]), '>>', 1))".format(R=R),
     ]
@@ -176,7 +180,8 @@ def register(reg):
                  params={"list_of_dicts": ROWS, "reaction_col": STR, "mcs_col": STR}, returns=ROWS, assumed=True,
                  ensures=["result is list_of_dicts and len(list_of_dicts) == old(len(list_of_dicts))",
                           "forall(range(0, len(list_of_dicts)), lambda j: list_of_dicts[j] is old(list_of_dicts[j]))",
-                          only_keys("list_of_dicts", ["'num_boundary'", "'bond_change_merge'", "'ring_change_merge'"])],
+                          only_keys("list_of_dicts", ["'num_boundary'", "'bond_change_merge'", "'ring_change_merge'"]),
+                          "forall(range(0, len(list_of_dicts)), lambda j: forall(STR, lambda k: implies(old(k in list_of_dicts[j]), k in list_of_dicts[j])))"],
                  modifies=["each(list_of_dicts)"],
                  note="adds the three feature keys to each row in place and changes nothing else (RDKit descriptors)",
                  props=["C13", "C18"])
@@ -200,7 +205,7 @@ def register(reg):
     MSG = "'Confidence is below the threshold of {:.2%}.'.format(threshold)"
     PRE_ROWS = ("forall(range(0, len(reactions)), lambda j: implies(self.solved_by_col in {R} and {R}[self.solved_by_col] == self.solved_by_method, "
                 "self.input_reaction_col in {R} and is_str({R}[self.input_reaction_col]) and split_len(as_str({R}[self.input_reaction_col]), '>>') >= 2 "
-                "and self.issue_col in {R} and {R}[self.issue_col] == ''))").format(R=R)
+                "and self.issue_col in {R}))").format(R=R)
     PPOST = [
         # rows of other methods and declined rows are not touched at all [C13]
         "implies(not {M}, same_map({R}, old(mapof({R}))))".format(M=M, R=R),
@@ -209,10 +214,13 @@ def register(reg):
         "implies({M} and as_real({R}[self.confidence_col]) >= threshold, {R}[self.solved_col] == old({R}[self.solved_col]) and {R}[self.issue_col] == old({R}[self.issue_col]))".format(M=M, R=R),
         "implies({M} and as_real({R}[self.confidence_col]) < threshold, {R}[self.solved_col] == False and {R}[self.issue_col] == {MSG})".format(M=M, R=R, MSG=MSG),
     ]
+    PPOST_EXTRA = ["forall(range(0, len(reactions)), lambda j: forall(STR, lambda k: implies(old(k in {R}), k in {R})))".format(R=R),
+                   "forall(range(0, len(reactions)), lambda j: implies({M}, self.confidence_col in {R}))".format(M=M, R=R),
+                   "forall(range(0, len(reactions)), lambda j: implies({M} and as_real({R}[self.confidence_col]) < threshold, old({R}[self.issue_col]) == ''))".format(M=M, R=R)]
     notk = lambda ks: " and ".join("k != %s" % k for k in ks)  # noqa
     RP = ("(is_real(r[self.confidence_col]) and as_real(r[self.confidence_col]) >= 0 and as_real(r[self.confidence_col]) <= 1"
           " and implies(as_real(r[self.confidence_col]) >= threshold, r[self.solved_col] == old(r[self.solved_col]) and r[self.issue_col] == old(r[self.issue_col]))"
-          " and implies(as_real(r[self.confidence_col]) < threshold, r[self.solved_col] == False and r[self.issue_col] == " + MSG + ")"
+          " and implies(as_real(r[self.confidence_col]) < threshold, r[self.solved_col] == False and r[self.issue_col] == " + MSG + " and old(r[self.issue_col]) == '')"
           " and forall(STR, lambda k: implies(" + notk(PKEYS) + ", r[k] == old(r[k]) and (k in r) == old(k in r))))")
     FK3 = ["'reactants'", "'products'", "'num_boundary'", "'bond_change_merge'", "'ring_change_merge'"]
     RU = ("(forall(STR, lambda k: implies(" + notk(FK3) + ", r[k] == old(r[k]) and (k in r) == old(k in r))))")
@@ -224,6 +232,7 @@ def register(reg):
         "forall(range(0, _i), lambda a: let(reactions[a], lambda r: " + RP + "))",
         "forall(range(_i, len(reactions)), lambda a: let(reactions[a], lambda r: " + RU + "))",
         "conf_success >= 0 and len(reactions) == len(confidence)",
+        "forall(range(0, len(old(reactions))), lambda j: let(old(reactions)[j], lambda r: forall(STR, lambda k: implies(old(k in r), k in r))))",
         # the scored list is a sub-list of the argument: exactly its rows attributed to the method
         "forall(range(0, len(reactions)), lambda a: in_list(reactions[a], old(reactions)))",
         "forall(range(0, len(reactions)), lambda a: let(reactions[a], lambda r: old(self.solved_by_col in r) and old(r[self.solved_by_col]) == self.solved_by_method))",
@@ -236,11 +245,15 @@ def register(reg):
         params={"self": Obj("ConfidencePredictor"), "reactions": ROWS, "stats": Ty("opt", COMP), "threshold": REAL},
         returns=ROWS,
         requires=["distinct_rows(reactions)", pdistinct, PRE_ROWS],
+        # the assertion inside the loop ("a solved MCS row has an empty issue") can only fail for such a row
+        raises={"AssertionError": "exists(range(0, len(reactions)), lambda j: self.solved_by_col in {R} and {R}[self.solved_by_col] == self.solved_by_method "
+                                  "and {R}[self.issue_col] != '')".format(R=R)},
         ensures=["len(reactions) == old(len(reactions))",
                  "forall(range(0, len(reactions)), lambda j: reactions[j] is old(reactions[j]))"]
         + ["forall(range(0, len(reactions)), lambda j: %s)" % p for p in PPOST]
         + [only_keys("reactions", PKEYS),
-           "implies(not is_none(stats), 'confident_cnt' in stats and stats['confident_cnt'] >= 0)"],
+           "implies(not is_none(stats), 'confident_cnt' in stats and stats['confident_cnt'] >= 0)",
+           "implies(not is_none(stats), forall(STR, lambda k: implies(k != 'confident_cnt', get0(stats, k) == old(get0(stats, k)) and (k in stats) == old(k in stats))))"] + PPOST_EXTRA,
         modifies=["each(reactions)", "stats"],
         loops={0: {"inv": PINV}},
         shards=8,
@@ -323,7 +336,8 @@ def register(reg):
                  "forall(range(0, len(reactions)), lambda j: reactions[j] is old(reactions[j]))"]
         + ["forall(range(0, len(reactions)), lambda j: %s)" % p for p in MPOST]
         + ["implies(not is_none(stats), 'mcs_applied' in stats and 'mcs_solved' in stats and stats['mcs_solved'] <= stats['mcs_applied'] "
-           "and 0 <= stats['mcs_solved'] and stats['mcs_applied'] <= len(reactions))"],
+           "and 0 <= stats['mcs_solved'] and stats['mcs_applied'] <= len(reactions))",
+           "implies(not is_none(stats), forall(STR, lambda k: implies(k != 'mcs_applied' and k != 'mcs_solved', get0(stats, k) == old(get0(stats, k)) and (k in stats) == old(k in stats))))"],
         modifies=["each(reactions)", "stats"],
         loops={0: {"inv": [
             "len(reactions) == old(len(reactions)) and forall(range(0, len(reactions)), lambda j: reactions[j] is old(reactions[j]))",
@@ -454,14 +468,16 @@ def register(reg):
             "forall(range(0, len(result)), lambda j: reaction_col in result[j] and is_str(result[j][reaction_col]) and split_len(as_str(result[j][reaction_col]), '>>') == 2 "
             "and index_col in result[j] and result[j][index_col] == str(j) and solved_col in result[j] and result[j][solved_col] == False "
             "and input_col in result[j] and result[j][input_col] == result[j][reaction_col] and 'reactants' in result[j] and 'products' in result[j])",
+            "forall(range(0, len(result)), lambda a: forall(range(0, len(result)), lambda b: implies(a != b, not (result[a][index_col] == result[b][index_col]))))",
             "forall(range(0, len(result)), lambda j: forall(STR, lambda k: implies(k in result[j] and " + " and ".join("k != %s" % k for k in PRE_KEYS)
-            + ", exists(range(0, len(reactions)), lambda i: k in reactions[i]))))",
+            + ", exists(range(0, len(reactions)), lambda i: old(k in reactions[i])))))",
         ],
         modifies=["each(reactions)"],
         note="pandas round trip: one fresh row per parsable input row in order, id = row position, solved = False, input_reaction = reaction "
              "(that no row is dropped is C05's claim and is NOT assumed here)",
         props=["C01", "C03", "C04", "C05", "C06", "C18"])
 
+    reg.specfun("RBF", [STR, VAL], STR)   # result of the rule-based stage on one reaction string with its stored carbon label
     reg.classdecl("RuleBasedMethod", {"id_col": STR, "reaction_col": STR, "output_col": STR, "n_jobs": VAL, "rules": VAL})
     R = "reactions[j]"
     RCMP = "CMPD(DEC(split_at(as_str(old({R}[self.reaction_col])), '>>', 0)), DEC(split_at(as_str(old({R}[self.reaction_col])), '>>', 1)))".format(R=R)
@@ -471,18 +487,190 @@ def register(reg):
         requires=["distinct_rows(reactions)", "self.output_col == self.reaction_col",
                   "self.reaction_col != 'reactants' and self.reaction_col != 'products' and self.reaction_col != 'carbon_balance_check'",
                   "forall(range(0, len(reactions)), lambda j: self.reaction_col in {R} and is_str({R}[self.reaction_col]) and "
-                  "split_len(as_str({R}[self.reaction_col]), '>>') == 2 and 'carbon_balance_check' in {R} and self.id_col in {R} and {R}[self.id_col] == str(j))".format(R=R)],
+                  "split_len(as_str({R}[self.reaction_col]), '>>') >= 2 and 'carbon_balance_check' in {R} and self.id_col in {R} and {R}[self.id_col] == str(j))".format(R=R)],
         ensures=[
             "result is reactions and len(reactions) == old(len(reactions))",
             "forall(range(0, len(reactions)), lambda j: reactions[j] is old(reactions[j]))",
             only_keys("reactions", ["self.reaction_col", "'reactants'", "'products'"]),
             # rows that compare as balanced keep their reaction [C01, C04]
             "forall(range(0, len(reactions)), lambda j: implies({C} == 'Balance', {R}[self.reaction_col] == old({R}[self.reaction_col])))".format(C=RCMP, R=R),
-            "forall(range(0, len(reactions)), lambda j: is_str({R}[self.reaction_col]) and split_len(as_str({R}[self.reaction_col]), '>>') == 2 "
+            "forall(range(0, len(reactions)), lambda j: is_str({R}[self.reaction_col]) and split_len(as_str({R}[self.reaction_col]), '>>') >= 2 "
             "and 'reactants' in {R} and 'products' in {R})".format(R=R),
+            # the rewritten reaction is a function of the reaction and the stored carbon label (the stage is deterministic and row-wise) [C03, C06]
+            "forall(range(0, len(reactions)), lambda j: {R}[self.reaction_col] == RBF(as_str(old({R}[self.reaction_col])), old({R}['carbon_balance_check'])))".format(R=R),
             "implies(not is_none(stats), 'balanced_cnt' in stats and 'rb_applied' in stats and 'rb_solved' in stats and "
             "0 <= stats['rb_solved'] and stats['rb_solved'] <= stats['rb_applied'] and 0 <= stats['balanced_cnt'])",
+            "implies(not is_none(stats), forall(STR, lambda k: implies(k != 'balanced_cnt' and k != 'rb_applied' and k != 'rb_solved', "
+            "get0(stats, k) == old(get0(stats, k)) and (k in stats) == old(k in stats))))",
         ],
         modifies=["each(reactions)", "stats"],
         note="the stage never rewrites a reaction whose two sides compare as balanced",
         props=["C01", "C03", "C04", "C18", "C02"])
+
+    # ------------------------------------------------------------------------------------------------
+    # Balancer.__post_process and Balancer.__run_pipeline (composition of the stage contracts)
+    FBAL = "synrbl/balancing.py"
+    reg.classdecl("PostProcess", {"id_col": STR, "reaction_col": STR, "n_jobs": VAL, "verbose": VAL})
+    reg.contract("synrbl/SynChemImputer/post_process.py", "PostProcess.fit",
+                 params={"self": Obj("PostProcess"), "data": ROWS}, returns=ROWS, fresh_result=True, assumed=True,
+                 ensures=["forall(range(0, len(result)), lambda k: fresh(result[k]) and 'label' in result[k] and self.id_col in result[k] and "
+                          "exists(range(0, len(data)), lambda j: data[j][self.id_col] == result[k][self.id_col]) and "
+                          "implies('curated_reaction' in result[k], is_str(result[k]['curated_reaction']) and split_len(as_str(result[k]['curated_reaction']), '>>') >= 2))"],
+                 note="labels / curates copies of the rows it is given; every result carries the id of one of them; the argument rows are not modified",
+                 props=["C01", "C03", "C04", "C06"])
+    BF = {"_Balancer__reaction_col": STR, "_Balancer__id_col": STR, "_Balancer__solved_col": STR, "_Balancer__solved_by_col": STR,
+          "_Balancer__mcs_data_col": STR, "_Balancer__input_col": STR, "_Balancer__confidence_col": STR, "_Balancer__unbalance_col": STR,
+          "_Balancer__carbon_balance_col": STR, "_Balancer__rules_col": STR, "_Balancer__issue_col": STR, "remove_aam": BOOL,
+          "confidence_threshold": REAL, "input_validator": Obj("Validator"), "rb_validator": Obj("Validator"), "mcs_validator": Obj("Validator"),
+          "rb_method": Obj("RuleBasedMethod"), "mcs_search": Obj("MCSSearch"), "mcs_method": Obj("MCSBasedMethod"),
+          "post_processor": Obj("PostProcess"), "conf_predictor": Obj("ConfidencePredictor")}
+    reg.classdecl("Balancer", BF)
+    RC, IC = "self._Balancer__reaction_col", "self._Balancer__id_col"
+    R = "reactions[j]"
+    reg.contract(
+        FBAL, "Balancer.__post_process",
+        params={"self": Obj("Balancer"), "reactions": ROWS},
+        requires=["distinct_rows(reactions)", "%s != %s and self._Balancer__solved_by_col != %s and self._Balancer__solved_by_col != %s" % (RC, IC, RC, IC),
+                  "self.post_processor.id_col == %s" % IC,
+                  "forall(range(0, len(reactions)), lambda j: %s in {R})".format(R=R) % IC,
+                  "forall(range(0, len(reactions)), lambda a: forall(range(0, len(reactions)), lambda b: implies(a != b, not (reactions[a][%s] == reactions[b][%s]))))" % (IC, IC),
+                  "forall(range(0, len(reactions)), lambda j: %s in {R} and is_str({R}[%s]) and split_len(as_str({R}[%s]), '>>') >= 2)".format(R=R) % (RC, RC, RC)],
+        ensures=[
+            "forall(range(0, len(reactions)), lambda j: %s in {R} and is_str({R}[%s]) and split_len(as_str({R}[%s]), '>>') >= 2)".format(R=R) % (RC, RC, RC),
+            "len(reactions) == old(len(reactions)) and forall(range(0, len(reactions)), lambda j: reactions[j] is old(reactions[j]))",
+            only_keys("reactions", [RC]),
+            # rows that were never solved, or were solved by the input check, keep their reaction [C03, C04]
+            "forall(range(0, len(reactions)), lambda j: implies(not old(self._Balancer__solved_by_col in {R}) or old({R}[self._Balancer__solved_by_col]) == 'input-balanced', "
+            "{R}[%s] == old({R}[%s])))".format(R=R) % (RC, RC),
+        ],
+        modifies=["each(reactions)"],
+        locals_types={"key_index_map": Dict(VAL, INT), "pp_data": ROWS},
+        loops={0: {"inv": [
+            "len(reactions) == old(len(reactions)) and forall(range(0, len(reactions)), lambda j: reactions[j] is old(reactions[j]))",
+            "forall(range(0, len(reactions)), lambda j: forall(STR, lambda k: implies(k != %s, {R}[k] == old({R}[k]) and (k in {R}) == old(k in {R}))))".format(R=R) % RC,
+            "forall(range(0, len(reactions)), lambda j: %s in {R} and is_str({R}[%s]) and split_len(as_str({R}[%s]), '>>') >= 2)".format(R=R) % (RC, RC, RC),
+            "forall(range(0, len(reactions)), lambda j: implies(not old(self._Balancer__solved_by_col in {R}) or old({R}[self._Balancer__solved_by_col]) == 'input-balanced', "
+            "{R}[%s] == old({R}[%s])))".format(R=R) % (RC, RC),
+        ]}},
+        props=["C01", "C03", "C04", "C06"])
+
+    S = "self"
+    def vcfg(v, method, carbon):
+        return [
+            "%s.reaction_col == %s and %s.method == '%s' and %s.solved_col == 'solved' and %s.solved_method_col == 'solved_by'" % (v, RC, v, method, v, v),
+            "%s.unbalance_col == 'unbalance_col' and %s.check_carbon_balance == %s and %s.carbon_balance_col == 'carbon_balance_check' and %s.issue_col == 'issue'" % (v, v, carbon, v, v),
+        ]
+    FIXED = ["'solved'", "'solved_by'", "'mcs'", "'input_reaction'", "'confidence'", "'unbalance_col'", "'carbon_balance_check'", "'rules'", "'issue'",
+             "'reactants'", "'products'", "'num_boundary'", "'bond_change_merge'", "'ring_change_merge'"]
+    CFG = (
+        ["self._Balancer__solved_col == 'solved' and self._Balancer__solved_by_col == 'solved_by' and self._Balancer__input_col == 'input_reaction' "
+         "and self._Balancer__issue_col == 'issue' and self._Balancer__mcs_data_col == 'mcs'",
+         "%s != %s and " % (RC, IC) + " and ".join("%s != %s and %s != %s" % (RC, f, IC, f) for f in FIXED)]
+        + vcfg("self.input_validator", "input-balanced", "True") + vcfg("self.rb_validator", "rule-based", "False")
+        + vcfg("self.mcs_validator", "mcs-based", "True")
+        + ["self.rb_method.id_col == %s and self.rb_method.reaction_col == %s and self.rb_method.output_col == %s" % (IC, RC, RC),
+           "self.mcs_search.id_col == %s and self.mcs_search.solved_col == 'solved' and self.mcs_search.mcs_data_col == 'mcs' and self.mcs_search.issue_col == 'issue'" % IC,
+           "self.mcs_method.reaction_col == %s and len(self.mcs_method.output_col) == 1 and self.mcs_method.output_col[0] == %s and self.mcs_method.mcs_data_col == 'mcs' "
+           "and self.mcs_method.issue_col == 'issue' and self.mcs_method.rules_col == 'rules' and self.mcs_method.carbon_balance_col == 'carbon_balance_check'" % (RC, RC),
+           "self.post_processor.id_col == %s and self.post_processor.reaction_col == %s" % (IC, RC),
+           "self.conf_predictor.reaction_col == %s and self.conf_predictor.input_reaction_col == 'input_reaction' and self.conf_predictor.confidence_col == 'confidence' "
+           "and self.conf_predictor.solved_col == 'solved' and self.conf_predictor.solved_by_col == 'solved_by' and self.conf_predictor.solved_by_method == 'mcs-based' "
+           "and self.conf_predictor.issue_col == 'issue' and self.conf_predictor.mcs_col == 'mcs'" % RC,
+           # the objects are distinct (a Balancer builds each of them itself)
+           "not (self.input_validator is self.rb_validator) and not (self.input_validator is self.mcs_validator) and not (self.rb_validator is self.mcs_validator)",
+           ])
+    # ---- program-point invariants (cut points) of __run_pipeline, over the local list `reactions`
+    Q = "reactions[j]"
+    def allrows(body):
+        return "forall(range(0, len(reactions)), lambda j: %s)" % body.format(Q=Q, RC=RC, IC=IC)
+    INP = "as_str({Q}['input_reaction'])"
+    BAL = ("(CMPD(DEC(split_at(" + INP + ", '>>', 0)), DEC(split_at(" + INP + ", '>>', 1))) == 'Balance' and CLABEL(" + INP + ") == 'balanced')")
+    IB = "('solved_by' in {Q} and {Q}['solved_by'] == 'input-balanced')"
+    SHAPE = [
+        "distinct_rows(reactions) and len(reactions) <= old(len(reactions))",
+        allrows("{RC} in {Q} and is_str({Q}[{RC}]) and split_len(as_str({Q}[{RC}]), '>>') >= 2"),
+        allrows("{IC} in {Q} and {Q}[{IC}] == str(j)"),
+        "forall(range(0, len(reactions)), lambda a: forall(range(0, len(reactions)), lambda b: implies(a != b, not (reactions[a][%s] == reactions[b][%s]))))" % (IC, IC),
+        allrows("'solved' in {Q} and 'input_reaction' in {Q} and is_str({Q}['input_reaction']) and split_len(as_str({Q}['input_reaction']), '>>') >= 2 "
+                "and 'reactants' in {Q} and 'products' in {Q}"),
+        "implies(not is_none(stats), 'reaction_cnt' in stats and stats['reaction_cnt'] == old(len(reactions)))",
+    ]
+    CNT = ["rxn_cnt == len(reactions)"]
+    AFTER_INPUT = [
+        allrows("'carbon_balance_check' in {Q}"),
+        allrows(IB + " == " + BAL),
+        allrows("implies(" + IB + ", {Q}['solved'] == True and {Q}[{RC}] == {Q}['input_reaction'])"),
+        allrows("truthy({Q}['solved']) == ('solved_by' in {Q})"),
+        allrows("implies('solved_by' in {Q}, {Q}['solved_by'] == 'input-balanced' or {Q}['solved_by'] == 'rule-based' or {Q}['solved_by'] == 'mcs-based')"),
+        allrows("is_bool({Q}['solved'])"),
+    ]
+    NO_SEARCH_KEYS = [allrows("not ('mcs' in {Q}) and not ('issue' in {Q}) and not ('confidence' in {Q}) and not ('rules' in {Q})")]
+    REVERTED = [allrows("implies(not truthy({Q}['solved']), {Q}[{RC}] == {Q}['input_reaction'])")]
+    MCSROWS = [allrows("implies('solved_by' in {Q} and {Q}['solved_by'] == 'mcs-based', 'issue' in {Q})")]
+    NOMCSROWS = [allrows("not ('solved_by' in {Q} and {Q}['solved_by'] == 'mcs-based')")]
+    AFTER_FIND = [
+        allrows("implies(not truthy({Q}['solved']), 'issue' in {Q} and 'mcs' in {Q})"),
+        allrows("implies(truthy({Q}['solved']), not ('mcs' in {Q}))"),
+        allrows("not ('confidence' in {Q})"),
+    ]
+    AFTER_MCS = [
+        allrows("implies(not truthy({Q}['solved']), 'issue' in {Q})"),
+        allrows("implies(" + IB + ", not ('mcs' in {Q}))"),
+        allrows("not ('confidence' in {Q})"),
+    ]
+    FINAL = [allrows("implies(not truthy({Q}['solved']), {Q}[{RC}] == {Q}['input_reaction'] and 'issue' in {Q} and {Q}['issue'] != '')"),
+             allrows("not ('confidence' in {Q}) or True")]
+    COMMON = SHAPE + CNT + AFTER_INPUT
+    CUTS = {
+        "rxn_cnt = len(reactions)": SHAPE + NO_SEARCH_KEYS + [
+            allrows("{Q}['solved'] == False and not ('solved_by' in {Q}) and not ('carbon_balance_check' in {Q}) and {Q}['input_reaction'] == {Q}[{RC}]")],
+        "self.rb_method.run(reactions, stats=stats)": COMMON + NO_SEARCH_KEYS + NOMCSROWS,
+        "self.rb_validator.check": COMMON + NO_SEARCH_KEYS + NOMCSROWS,
+        "self.mcs_search.find": COMMON + NO_SEARCH_KEYS + REVERTED + NOMCSROWS,
+        "self.mcs_method.run": COMMON + AFTER_FIND + REVERTED + NOMCSROWS,
+        "self.mcs_validator.check(reactions)": COMMON + AFTER_MCS + NOMCSROWS,
+        "self.__post_process": COMMON + AFTER_MCS + MCSROWS,
+        "self.rb_method.run(reactions)": COMMON + AFTER_MCS + MCSROWS,
+        "self.mcs_validator.check(reactions, override_unsolved=True": COMMON + AFTER_MCS + MCSROWS,
+        "self.conf_predictor.predict": COMMON + FINAL + MCSROWS,
+        "assert rxn_cnt": SHAPE + CNT + [
+            allrows(IB + " == " + BAL),
+            allrows("implies(" + IB + ", {Q}['solved'] == True and {Q}[{RC}] == {Q}['input_reaction'])"),
+            allrows("implies(truthy({Q}['solved']), 'solved_by' in {Q} and ({Q}['solved_by'] == 'input-balanced' or {Q}['solved_by'] == 'rule-based' or {Q}['solved_by'] == 'mcs-based'))"),
+            "implies(self.confidence_threshold <= 0, " + allrows("implies(not truthy({Q}['solved']), {Q}[{RC}] == {Q}['input_reaction'] and 'issue' in {Q} and {Q}['issue'] != '')") + ")",
+            allrows("implies('solved_by' in {Q} and {Q}['solved_by'] == 'mcs-based', is_real({Q}['confidence']) and as_real({Q}['confidence']) >= 0 and "
+                    "as_real({Q}['confidence']) <= 1 and truthy({Q}['solved']) == (as_real({Q}['confidence']) >= self.confidence_threshold))"),
+        ],
+    }
+    TOOL = ["'solved_by'", "'mcs'", "'issue'", "'confidence'", "'rules'", "'unbalance_col'", "'carbon_balance_check'"]
+    NOTOOL = "forall(range(0, len(reactions)), lambda i: " + " and ".join("not (%s in reactions[i])" % t for t in TOOL) + ")"
+    RES = "result[j]"
+    reg.contract(
+        FBAL, "Balancer.__run_pipeline",
+        params={"self": Obj("Balancer"), "reactions": ROWS, "stats": Ty("opt", COMP)}, returns=ROWS,
+        requires=CFG + [NOTOOL, "implies(not is_none(stats), forall(range(0, len(reactions)), lambda i: not (reactions[i] is None)))"],
+        ensures=[
+            "len(result) <= len(reactions)",
+            "implies(not is_none(stats), 'reaction_cnt' in stats and stats['reaction_cnt'] == old(len(reactions)))",
+            "forall(range(0, len(result)), lambda j: 'solved' in {X} and 'input_reaction' in {X} and %s in {X} and is_str({X}['input_reaction']))".format(X=RES) % RC,
+            # C04: a row is labelled input-balanced exactly when its (map-free) input compares as balanced in composition and in carbon,
+            # and such a row is returned solved and unchanged
+            "forall(range(0, len(result)), lambda j: (('solved_by' in {X} and {X}['solved_by'] == 'input-balanced') == "
+            "(CMPD(DEC(split_at(as_str({X}['input_reaction']), '>>', 0)), DEC(split_at(as_str({X}['input_reaction']), '>>', 1))) == 'Balance' "
+            "and CLABEL(as_str({X}['input_reaction'])) == 'balanced')))".format(X=RES),
+            "forall(range(0, len(result)), lambda j: implies('solved_by' in {X} and {X}['solved_by'] == 'input-balanced', "
+            "{X}['solved'] == True and {X}[%s] == {X}['input_reaction']))".format(X=RES) % RC,
+            # C03 (default threshold): a declined row is returned untouched and with a reason
+            "implies(self.confidence_threshold <= 0, forall(range(0, len(result)), lambda j: implies(not truthy({X}['solved']), "
+            "{X}[%s] == {X}['input_reaction'] and 'issue' in {X} and {X}['issue'] != '')))".format(X=RES) % RC,
+            "forall(range(0, len(result)), lambda j: implies(truthy({X}['solved']), 'solved_by' in {X} and "
+            "({X}['solved_by'] == 'input-balanced' or {X}['solved_by'] == 'rule-based' or {X}['solved_by'] == 'mcs-based')))".format(X=RES),
+            # C13: MCS-based rows carry a confidence in [0,1] and are solved exactly when it reaches the threshold
+            "forall(range(0, len(result)), lambda j: implies('solved_by' in {X} and {X}['solved_by'] == 'mcs-based', is_real({X}['confidence']) and "
+            "as_real({X}['confidence']) >= 0 and as_real({X}['confidence']) <= 1 and truthy({X}['solved']) == (as_real({X}['confidence']) >= self.confidence_threshold)))".format(X=RES),
+        ],
+        modifies=["each(reactions)", "stats", "*D.str.val.dom", "*D.str.val.val", "*D.str.int.dom", "*D.str.int.val"],
+        cuts=CUTS,
+        allow_exc=("AssertionError",),
+        note="AssertionError from the assertion inside predict is not excluded deductively (it is monitored at run time)",
+        props=["C01", "C03", "C04", "C05", "C13", "C18"])
